@@ -1,13 +1,15 @@
 import HpxVerif.Lemmas.BmocEnc
+import HpxVerif.Lemmas.BmocPack
 
 /-!
 # C15 — BMOC builders preserve exactly what was pushed
 
-Proved so far: `pack` terminates with a fixed point of the compaction pass (a further pass merges nothing), each
-pass never lengthens the list, `to_lower_depth` rejects `new_depth ≥ depth_max`.
+Proved: `pack` terminates with a fixed point of the compaction pass (a further pass merges nothing), each pass never
+lengthens the list; **`pack_sem`: for every list of valid raw entries (depth ≤ 29) the three-valued state of every cell is
+unchanged by `pack`**; `pack_wf`: well-formedness is preserved; `pack_no_four_full`: nowhere in the output do four full
+siblings remain; `to_lower_depth` rejects `new_depth ≥ depth_max`.
 Open statements (executable model tied to the code by the correspondence check: all push-sequence families ×
-capacities × depths, exhaustive universes for `pack`/`to_lower_depth`): `pack_sem`, `pack_wf`,
-`fixed_builder_sem`, `to_lower_depth_sem`.
+capacities × depths, exhaustive universes for `pack`/`to_lower_depth`): `fixed_builder_sem`, `to_lower_depth_sem`.
 -/
 
 namespace Hpx.C15
@@ -74,5 +76,33 @@ theorem pack_length_le (dm : Nat) (l : List Nat) : (pack dm l).length ≤ l.leng
 
 theorem to_lower_depth_guard (dm nd : Nat) (l : List Nat) (h : nd ≥ dm) : toLowerDepth dm nd l = none := by
   simp [toLowerDepth, h]
+
+/-- **`pack` preserves exactly what was there** (three-valued state of every depth-`dm` cell `x`), for every list of
+    valid raw entries of a BMOC of depth `dm ≤ 29`; the entries stay valid -/
+theorem pack_sem (dm : Nat) (hdm : dm ≤ 29) (l : List Nat) (hv : ∀ r ∈ l, ValidRaw dm r) (x : Nat) :
+    stOf dm (cellsOf dm (pack dm l)) x = stOf dm (cellsOf dm l) x :=
+  (Hpx.Bmoc.pack_sem dm hdm l hv).1 x
+
+theorem pack_valid (dm : Nat) (hdm : dm ≤ 29) (l : List Nat) (hv : ∀ r ∈ l, ValidRaw dm r) :
+    ∀ r ∈ pack dm l, ValidRaw dm r :=
+  (Hpx.Bmoc.pack_sem dm hdm l hv).2.1
+
+/-- **`pack` preserves well-formedness** (sorted, disjoint, depths `≤ dm`) -/
+theorem pack_wf (dm : Nat) (hdm : dm ≤ 29) (l : List Nat) (hv : ∀ r ∈ l, ValidRaw dm r) (hw : WF dm (cellsOf dm l)) :
+    WF dm (cellsOf dm (pack dm l)) :=
+  (Hpx.Bmoc.pack_sem dm hdm l hv).2.2 hw
+
+/-- **no four full siblings are left** anywhere in the output of `pack` -/
+theorem pack_no_four_full (dm : Nat) (hdm : dm ≤ 29) (l : List Nat) (hv : ∀ r ∈ l, ValidRaw dm r)
+    (pre rest : List Cell) (d h : Nat) (hd : 0 < d) (h4 : h % 4 = 0) :
+    cellsOf dm (pack dm l) ≠ pre ++ ⟨d, h, true⟩ :: ⟨d, h + 1, true⟩ :: ⟨d, h + 2, true⟩ :: ⟨d, h + 3, true⟩ :: rest :=
+  fix_no_four_full dm hdm _ (pack_valid dm hdm l hv) (pack_fixpoint dm l) pre rest d h hd h4
+
+/-- the hypotheses are satisfiable by a non-trivial list (four full siblings at depth 1 of a depth-2 BMOC, then a cell) -/
+example : ∀ r ∈ [buildRaw 1 4 true 2, buildRaw 1 5 true 2, buildRaw 1 6 true 2, buildRaw 1 7 true 2, buildRaw 2 40 false 2],
+    ValidRaw 2 r := by
+  intro r hr
+  simp only [List.mem_cons, List.not_mem_nil, or_false] at hr
+  rcases hr with rfl | rfl | rfl | rfl | rfl <;> exact validRaw_buildRaw _ (by decide) (by decide)
 
 end Hpx.C15
